@@ -93,8 +93,9 @@ _codec_check(
     "dynamic value tree (floats by bit pattern), reader position after every value = bytes the writer had produced, trailing sentinel reads back. Oversize logical "
     "buffers must be rejected by Write without UB. NOP_UNBOUNDED_BUFFER structures (value / structure / external forms, integral and structure elements) round-trip through caller-allocated storage. "
     "API-form stage: seven hand-written types through every documented form - Serializer<W> with an internal writer (incl. take() and move construction), Serializer<W*>, Serializer<unique_ptr<W>>, the three Deserializer forms, "
-    "Protocol<T>::Write/Read on each - must emit the reference bytes, read the sequence back and end exactly after it. distinct = hash(type, bytes); non-trivial = encoding of 2+ bytes.",
-    {"quick": 3000, "thorough": 30000}, ["c01_values", "c01_sequences", "c01_reader_FdReader", "c01_reader_BoundedReader<Chunked>", "c01_writer_ConstexprBufferWriter", "c01_oversize_logical_buffer_writes", "cases_on_unbounded_buffer_types", "forms_writer_form_runs", "forms_reader_form_runs"],
+    "Protocol<T>::Write/Read on each - must emit the reference bytes, read the sequence back and end exactly after it. Half of the sequences are followed by more data (a sentinel that must read back), half end the stream. "
+    "Fault stage: FdWriter / FdReader on a blocking pipe with a 4 KiB kernel buffer, a slow peer thread and a signal storm without SA_RESTART on the calling thread (partial and EINTR system calls) must transfer exactly the encoding. distinct = hash(type, bytes); non-trivial = encoding of 2+ bytes.",
+    {"quick": 3000, "thorough": 30000}, ["c01_values", "c01_sequences", "c01_reader_FdReader", "c01_reader_BoundedReader<Chunked>", "c01_writer_ConstexprBufferWriter", "c01_oversize_logical_buffer_writes", "cases_on_unbounded_buffer_types", "forms_writer_form_runs", "forms_reader_form_runs", "c01_sequences_ending_the_stream", "fd_storm_writes", "fd_storm_reads", "fd_storm_signals_delivered"],
     "exploration: 10^4-10^5 generated (type, value-sequence) cases, each decided exactly (value tree equality, exact consumed length) on every shipped writer x reader kind, with ASan/UBSan watching the same executions. Types, values and pairings are unbounded sets; sampling with exact per-case oracles is the level this technique reaches.",
     "trusts the independent reflection (vlib/reflect.h + generated Reflect specialisations) to read/write C++ objects faithfully; pairings are exercised per kind through identical bytes rather than as a literal cross product",
     "runtime round-trip oracle on every shipped reader/writer kind under ASan/UBSan, generated type corpus")
@@ -103,8 +104,9 @@ _codec_check(
     "C03", "exploration",
     "case = (type, value): bytes captured from the writer are compared byte for byte with RefEncode (independent encoder written from docs/format.md); the annotation names the "
     "first differing field; the same object is written twice. Integer types additionally: all 8/16-bit values exhaustively, +-2 around every class boundary, 2^14/2^20 random "
-    "32/64-bit values; containers up to 70000 elements cross the U8/U16/U32 length-class boundaries. distinct = hash(type, bytes) + enumerated integers.",
-    {"quick": 20000, "thorough": 300000}, ["c03_encodings_compared", "c03_dense_int_values", "c03_exhaustive_small_int_values"],
+    "32/64-bit values; containers up to 70000 elements cross the U8/U16/U32 length-class boundaries; a 130-alternative Variant takes the element index out of the fixint class. "
+    "Two shipped writer kinds per case (rotating) and FdWriter on a blocking pipe under a signal storm must put exactly the reference bytes on the medium. distinct = hash(type, bytes) + enumerated integers.",
+    {"quick": 20000, "thorough": 300000}, ["c03_encodings_compared", "c03_dense_int_values", "c03_exhaustive_small_int_values", "c03_shipped_writer_encodings_compared", "fd_storm_writes"],
     "exploration with exhaustive small scopes: every generated (type, value) is decided exactly by byte comparison with an independent encoder; 8- and 16-bit integers are enumerated completely.",
     "trusts ref/refcodec.h (≈150 lines written from docs/format.md, validated against libnop on 2.7M differential decodes during design) as the statement of the format",
     "differential byte-for-byte comparison with an independent reference encoder")
@@ -115,8 +117,8 @@ _codec_check(
     "every cut, all 256 prefix bytes at prefix positions, every integer field re-encoded in every class that can hold it (legal wider classes must be accepted, too-wide / "
     "other-signedness rejected), boundary value substitutions in length/count/id/size/hash/index/tag fields, Val-level single defects (fixed count +-1 with matching payload, "
     "non-multiple byte lengths, logical buffer above capacity), noise, random strings. Oracle = RefDecode: accept/reject, decoded value, consumed length on every input; "
-    "error category only where the reference's first error sits exactly at the single injected defect. distinct = hash(type, bytes); non-trivial = non-empty input.",
-    {"quick": 50000, "thorough": 1000000}, ["c04_differential_decodes", "c04_accepted_and_value_compared", "c04_single_defect_categories_compared", "c04_inputs_reference_accepts", "c04_inputs_reference_rejects"],
+    "error category only where the reference's first error sits exactly at the single injected defect. Every other input is decoded into a destination that already holds another value. distinct = hash(type, bytes); non-trivial = non-empty input.",
+    {"quick": 50000, "thorough": 1000000}, ["c04_differential_decodes", "c04_accepted_and_value_compared", "c04_single_defect_categories_compared", "c04_inputs_reference_accepts", "c04_inputs_reference_rejects", "c04_decodes_into_used_destination"],
     "exploration: 10^5-10^7 structure-aware hostile inputs per run, each decided exactly against an independent schema-directed decoder; the input language is infinite so sampling directed by field annotations is the reachable level.",
     "trusts ref/refcodec.h as the statement of docs/format.md; two documented ambiguities resolved as in DESIGN.md 2.3 (variant index is INT32; duplicate-key maps compared on accept/consumed only)",
     "differential decoding against an independent reference decoder under ASan/UBSan; coverage-guided libFuzzer stage in the thorough tier",
@@ -128,7 +130,7 @@ _codec_check(
     "chunked Stream/Fd. Monitors: ASan (every input in its own exactly-sized allocation), UBSan, allocation meter with cap 64 KiB + 1024 x input length on any single request "
     "and on peak live bytes, per-case watchdog; post-conditions after a failed read: inspect the object, read a valid encoding into it and compare with a fresh decode, destroy. "
     "NOP_UNBOUNDED_BUFFER structures and bool/loose-enum BIN elements excluded as stated. distinct = hash(type, bytes).",
-    {"quick": 50000, "thorough": 1000000}, ["c02_monitored_decodes", "c02_failed_reads_followed_by_reread", "max_peak_alloc_bytes"],
+    {"quick": 50000, "thorough": 1000000}, ["c02_monitored_decodes", "c02_failed_reads_followed_by_reread", "max_peak_alloc_bytes", "c02_decodes_into_used_destination"],
     "exploration under sanitizers: 10^5-10^7 hostile inputs each executed under ASan/UBSan with an armed allocation cap and a watchdog; memory safety is decided for the executions produced, not for all inputs.",
     "ASan red zones miss non-adjacent overflows (mitigated by dedicated exact-size allocations); the allocation cap is two orders of magnitude above legitimate use",
     "ASan/UBSan + allocation meter + watchdog over structure-aware hostile inputs; coverage-guided libFuzzer stage in the thorough tier",
@@ -140,7 +142,7 @@ _codec_check(
     "every reader kind: Buffer, Pedantic, Log, Stream over stringstream and over a non-seekable chunked streambuf, Fd over memfd and over a pipe closed after k bytes, Bounded over each with "
     "limit beyond the data and with limit = k over the full data; tables are additionally read by a different table version that skips entries (unknown / deleted ids). Oracle: status must be "
     "an error. Every cut is also fed to every Deserializer form (internal instance, pointer, unique_ptr, Protocol::Read) of seven hand-written types. distinct = enumerated (value, k, reader, mode) tuples; non-trivial = k > 0.",
-    {"quick": 100000, "thorough": 1000000}, ["c05_cut_reads", "c05_cut_reads_by_other_table_version", "c05_cut_reads_of_padded_tables", "c05_reader_FdReader", "c05_reader_StreamReader<chunked non-seekable>", "forms_cut_reads", "cases_on_unbounded_buffer_types"],
+    {"quick": 100000, "thorough": 1000000}, ["c05_cut_reads", "c05_cut_reads_by_other_table_version", "c05_cut_reads_of_padded_tables", "c05_reader_FdReader", "c05_reader_StreamReader<chunked non-seekable>", "forms_cut_reads", "cases_on_unbounded_buffer_types", "c05_values_above_64KiB"],
     "fault enumeration: for each generated encoding every cut position is enumerated on every reader implementation (exhaustive per encoding up to 512 bytes); types and values are sampled.",
     "fd and stream media are memfd/pipe/stringstream/custom streambuf inside one process",
     "exhaustive cut-point enumeration per encoding on every shipped reader, under ASan/UBSan",
@@ -165,7 +167,7 @@ _codec_check(
     "RPC layer: every writer call of three requests through SimpleMethodSender (value-returning and void methods) and every reader call of the reply; every reader call of the request and every writer call of the "
     "reply in the dispatcher with lambda and member-function bindings: error returned unchanged, no further calls, no reply read after a failed send, no handler / reply after a failed request read. "
     "API forms: the same fail-at-k sweep through Serializer<LogWriter> / <LogWriter*> / <unique_ptr<LogWriter>>, the three Deserializer forms and Protocol<T>::Write/Read.",
-    {"quick": 50000, "thorough": 500000}, ["c10_write_faults", "c10_read_faults", "c10_rpc_sender_write_faults", "c10_rpc_sender_read_faults", "c10_rpc_dispatch_read_faults", "c10_rpc_dispatch_write_faults", "c10_fault_at_Prepare_w", "c10_fault_at_Ensure_r", "c10_fault_at_Skip_r", "c10_fault_at_PushHandle_w", "c10_fault_at_GetHandle_r", "forms_write_faults", "forms_read_faults"],
+    {"quick": 50000, "thorough": 500000}, ["c10_write_faults", "c10_read_faults", "c10_rpc_sender_write_faults", "c10_rpc_sender_read_faults", "c10_rpc_dispatch_read_faults", "c10_rpc_dispatch_write_faults", "c10_fault_at_Prepare_w", "c10_fault_at_Ensure_r", "c10_fault_at_Skip_r", "c10_fault_at_PushHandle_w", "c10_fault_at_GetHandle_r", "forms_write_faults", "forms_read_faults", "c10_values_above_64KiB"],
     "fault enumeration: for each generated value every primitive-call index is failed with every error code (exhaustive in k per value); types and values are sampled.",
     "the instrumented LogReader/LogWriter implement the documented Reader/Writer interface",
     "exhaustive fail-at-k injection through instrumented reader/writer with call-log oracle")
@@ -173,9 +175,10 @@ _codec_check(
 _codec_check(
     "C11", "exploration",
     "case = (type, incoming bytes, prior state): incoming = a valid encoding plus mutated/truncated ones; prior states = default, assigned random value, after a successful read of another value, "
-    "residue of a read that failed at a random cut (with and without a prior assignment). Oracle: status and decoded value tree equal to a decode into a fresh object; ASan/LSan report leaks or "
+    "residue of a read that failed at a random cut (with and without a prior assignment). The reader kind rotates with the case over Pedantic, Buffer, Stream, chunked non-seekable Stream, Fd and Bounded readers "
+    "(arbitrary byte strings only on readers that bound the input themselves). Oracle: status and decoded value tree equal to a decode into a fresh object; ASan/LSan report leaks or "
     "double destruction of element objects. distinct = hash(type, bytes, prior value, prior kind); non-trivial = prior state is not default.",
-    {"quick": 20000, "thorough": 200000}, ["c11_prior_state_decodes", "c11_prior_kind_3", "c11_invalid_incoming"],
+    {"quick": 20000, "thorough": 200000}, ["c11_prior_state_decodes", "c11_prior_kind_3", "c11_invalid_incoming", "c11_reader_StreamReader<stringstream>", "c11_reader_FdReader", "c11_reader_BufferReader"],
     "exploration: 10^4-10^6 (prior, incoming) pairs per run each decided exactly by comparison with a fresh decode; histories producing the prior state are sampled from four families.",
     "element lifetimes are monitored by ASan/LSan on the containers' own allocations",
     "differential decode (prior-state object vs fresh object) under ASan/LSan")
@@ -199,8 +202,9 @@ CHECKS["C12"] = dict(
           "copy/move assign (incl. self), assign EmptyVariant, Become(-2..5), copy/move construct, destroy+construct, mutate via get, IfAnyOf Get/Take/Swap/Call, each constructing operation also with an element "
           "constructor that throws on its n-th construction. After every operation a shadow model {index, value} is compared through index/empty/Visit/get<T>/get<I>/is<T> and a lifetime registry is audited "
           "(live elements = non-empty tracked alternatives, no double destruction, no use of a dead object, nothing alive at the end). Exhaustive: every history of length <= 3 (quick) / 4 (thorough) over the "
-          "98-operation alphabet; then random histories of length <= 40. distinct = enumerated histories + hashed random ones; non-trivial = 2+ operations."),
-    floor={"quick": 100000, "thorough": 1000000}, require_counters=["c12_operations_executed", "c12_injected_constructor_exceptions", "c12_random_histories"],
+          "98-operation alphabet; then random histories of length <= 40. Special scenarios: every constructor form (default, EmptyVariant, copy/move from empty and non-empty, converting copy/move from an empty and non-empty "
+          "Variant<Other...>, single-alternative Variants incl. swap and vector growth) placement-constructed into storage pre-filled with five byte patterns, so an uninitialised member shows as a wrong index()/Visit. distinct = enumerated histories + hashed random ones; non-trivial = 2+ operations."),
+    floor={"quick": 100000, "thorough": 1000000}, require_counters=["c12_operations_executed", "c12_injected_constructor_exceptions", "c12_random_histories", "c12_special_scenarios"],
     technique="shadow-model interpreter + lifetime registry over bounded-exhaustive and random operation histories, under ASan/UBSan",
     level_text="exploration with an exhaustive core: all operation histories up to length 3/4 over a 98-operation alphabet are enumerated and each step is decided exactly against a shadow model and a lifetime registry; longer histories are sampled.",
     level_note="element lifetime is observed through tracked element types (registry of live addresses + magic word); ASan watches the same executions",
@@ -213,8 +217,10 @@ CHECKS["C13"] = dict(
           "(incl. self and cross-type Optional<int>), copy/move construct, destroy+construct (value / InPlace / error), entry<->optional transfers, error assignment, Status moves. After every operation the state "
           "model is compared through empty/bool/has_value/has_error/error()/get and the lifetime registry is audited; moving from an object by assignment must leave it empty. Exhaustive to length 3/4 over the "
           "77-operation alphabet, random to length 40. Comparisons: all 6 x 6 operand states x 18 operators for int/int, int/long, string, tracked and Entry operands against the total order 'empty < values'. "
-          "Messages: all 19 ErrorStatus enumerators through Status<void> and Status<int>."),
-    floor={"quick": 100000, "thorough": 1000000}, require_counters=["c13_operations_executed", "c13_comparisons", "c13_error_messages", "c13_random_histories"],
+          "Messages: all 19 ErrorStatus enumerators through Status<void> and Status<int>. "
+          "Special scenarios: every constructor form of Optional/Entry/Result/Status in pattern-filled storage; a throwing element constructor at the 1st..3rd construction inside each of 14 assigning operations on empty and engaged destinations: "
+          "afterwards each object is empty or holds one alive value and the registry balances."),
+    floor={"quick": 100000, "thorough": 1000000}, require_counters=["c13_operations_executed", "c13_comparisons", "c13_error_messages", "c13_random_histories", "c13_special_scenarios", "c13_injected_constructor_exceptions"],
     technique="shadow-model interpreter + lifetime registry over bounded-exhaustive and random histories; exhaustive operand-state table for the 18 comparison operators",
     level_text="exploration with an exhaustive core: all histories up to length 3/4 over a 77-operation alphabet, all operand-state pairs of every comparison operator, all ErrorStatus values; longer histories sampled.",
     level_note="state after move *construction* is read back, not asserted (the property constrains move assignment only)",
@@ -225,10 +231,10 @@ CHECKS["C15"] = dict(
     rule=("(a) transfer: values of 14 handle-bearing types (handles in structure members, vectors, arrays, pairs, optionals, variants, maps, logical buffers, table entries incl. a table nested in a table entry, "
           "three handle policies with U8/U32/U64-class type tags, empty handles) are written through LogWriter and BoundedWriter<LogWriter> returning references drawn from {-1,0,1,63,64,127,128,...,2^63-1,-2,-64,-65,-129}; "
           "oracle: PushHandle log == handles of the value in encounter order, each once; bytes == reference encoding with exactly the returned references; on read GetHandle sees exactly those references in order and "
-          "the values round-trip; a corrupted type tag gives UnexpectedHandleType; a resolver error is returned unchanged. (b) ownership: every history of length <= 4/5 over 3 UniqueHandles with a counting policy "
+          "the values round-trip; a corrupted type tag gives UnexpectedHandleType, a tag differing in any single bit (also above the width of a narrow tag type) is rejected without calling GetHandle; a resolver error is returned unchanged. (b) ownership: every history of length <= 4/5 over 3 UniqueHandles with a counting policy "
           "(construct, move-assign incl. self, move-construct, release, close, destroy, assign temporary / empty), random to length 40: each resource closed exactly once when its owner drops it, never after "
-          "release or while still owned; real descriptors through UniqueFileHandle checked with fcntl."),
-    floor={"quick": 100000, "thorough": 1000000}, require_counters=["c15_operations_executed", "c15_handles_pushed", "c15_values_read_back", "c15_corrupted_tags", "c15_resolver_errors_injected", "c15_real_fd_cases"],
+          "release or while still owned; real descriptors through UniqueFileHandle checked with fcntl, incl. descriptor 0 in a forked child whose stdin is closed."),
+    floor={"quick": 100000, "thorough": 1000000}, require_counters=["c15_operations_executed", "c15_handles_pushed", "c15_values_read_back", "c15_corrupted_tags", "c15_resolver_errors_injected", "c15_real_fd_cases", "c15_fd0_child_cases"],
     technique="call-log oracle on instrumented reader/writer + counting handle policy over bounded-exhaustive ownership histories, under ASan/UBSan",
     level_text="exploration with an exhaustive core: all ownership histories up to length 4/5 over a 30-operation alphabet; handle-bearing values, returned references and corruptions are sampled and each case decided exactly from the call logs.",
     level_note="handle-capable readers/writers shipped with libnop do not exist; the documented PushHandle/GetHandle interface is implemented by the harness' LogWriter/LogReader",
@@ -269,9 +275,10 @@ CHECKS["C17"] = dict(
           "(kept within capacity), PedanticBufferWriter, ConstexprBufferWriter, StreamWriter, FdWriter, BoundedWriter over each with capacities 0..64. Oracle = array+position / vector+capacity model: same bytes in the "
           "same order, failure at the same call with an allowed category, Ensure/Prepare exact on bounded kinds, checked writers refuse exactly the calls beyond capacity, byte stream equal after every call. "
           "Compile time: generated literal values (structures, BIN/ARY arrays, tables, 64-bit fields with distinct bytes) serialized in constant expressions are compared with four run-time writers, and generated "
-          "constexpr Prepare/Write/Skip sequences on ConstexprBufferWriter with the model and with their own run-time evaluation. Exhaustive to length 2 (quick) / 3 (thorough), random to length 10."),
+          "constexpr Prepare/Write/Skip sequences on ConstexprBufferWriter with the model and with their own run-time evaluation. Fault stage: Write sequences with blocks up to 96 KiB through FdWriter into a blocking pipe (4 KiB buffer, "
+          "slow peer, signal storm without SA_RESTART) and the same bytes back through FdReader from a slowly fed pipe under the storm must equal the model stream, with no call refused. Exhaustive to length 2 (quick) / 3 (thorough), random to length 10."),
     floor={"quick": 100000, "thorough": 1000000},
-    require_counters=["c17_reader_calls", "c17_writer_calls", "c17_constexpr_vs_runtime_comparisons", "c17_constexpr_sequences", "c17_reader_FdReader", "c17_writer_ConstexprBufferWriter", "c17_reader_StreamReader<chunked non-seekable>"],
+    require_counters=["c17_reader_calls", "c17_writer_calls", "c17_constexpr_vs_runtime_comparisons", "c17_constexpr_sequences", "c17_reader_FdReader", "c17_writer_ConstexprBufferWriter", "c17_reader_StreamReader<chunked non-seekable>", "c17_fd_storm_writer_sequences", "c17_fd_storm_reader_sequences", "c17_fd_storm_signals_delivered"],
     technique="differential execution of every shipped reader/writer against an executable byte-source/byte-sink model; compile-time constants emitted into the binary",
     level_text="exploration with an exhaustive core: all call sequences up to length 2/3 over the relative-size alphabet on every reader and writer kind and every source length / capacity in the grid; longer sequences and compile-time values are sampled.",
     level_note="equivalence is required up to and including the first failing call, as the property states; the unchecked BufferWriter is only driven within its capacity",
@@ -363,9 +370,10 @@ CHECKS["C14"] = dict(
           "the bound passthrough values, Invoke returns the handler's value, the reply is exactly one encoding of it, request and reply fully consumed; unbound methods: InvalidInterfaceMethod, no handler, no reply byte. "
           "case (2) = raw requests: every bound selector +-1, bit 31/32 flipped, widened / narrowed, extreme and random selectors crossed with argument tuples of every method, plus field-directed corruptions and every "
           "truncation of valid requests: the reference decoder says whether a handler may run. case (3) = 1..12 calls from a client thread to a server thread over a socketpair through FdReader/FdWriter. One call in eight runs "
-          "with only 0..11 bytes of room in the reply direction: a dispatcher that reports success must have produced one complete reply. A hand-written interface has handlers returning references into their decoded arguments."),
+          "with only 0..11 bytes of room in the reply direction: a dispatcher that reports success must have produced one complete reply. A hand-written interface has handlers returning references into their decoded arguments; another one relays: its handlers invoke the same method on a peer node from inside the handler "
+          "(nested dispatch of one method on one thread, depth 0..5) and read their own arguments afterwards."),
     floor={"quick": 3000, "thorough": 100000},
-    require_counters=["c14_calls", "c14_bound_calls_checked", "c14_unbound_calls_checked", "c14_raw_requests_valid", "c14_raw_requests_invalid", "c14_fd_transport_calls", "c14_call_sequences", "c14_reply_write_failures_injected", "c14_reference_returning_handler_calls"],
+    require_counters=["c14_calls", "c14_bound_calls_checked", "c14_unbound_calls_checked", "c14_raw_requests_valid", "c14_raw_requests_invalid", "c14_fd_transport_calls", "c14_call_sequences", "c14_reply_write_failures_injected", "c14_reference_returning_handler_calls", "c14_reentrant_dispatch_calls"],
     technique="handler-invocation log + byte-accounting loopback transport + reference decoding of requests/replies over generated interfaces, under ASan/UBSan",
     level_text="exploration over generated programs: each generated interface is driven by sampled call sequences, a selector/argument cross product and the hostile-request catalogue; every call is decided exactly from the handler log, the byte counters and an independent decode of both directions.",
     level_note="the loopback transport is the harness' own (documented Reader/Writer interface); the out-parameter overload of Invoke (no return statement) is not used",
@@ -386,7 +394,7 @@ CHECKS["C19"] = dict(
     env={"TSAN_OPTIONS_EXTRA": "exitcode=0"},
     rule=("round = N in {2,4,8,16} threads released from a barrier, each running on its own objects a seeded mix of: round trips of 12 corpus types through Log/Pedantic/Stream writers and Pedantic/Buffer/Stream/chunked/Bounded/Log "
           "readers incl. a table read by another version, writer/reader primitives incl. Skip with a thread-specific padding value on Stream/Pedantic/Constexpr/Bounded writers, Variant/Optional/Result operations, SipHash, "
-          "RPC calls over a private loopback, and ThreadLocal construct/Initialize/Get/write/Clear on 6 (T, Slot) types shared by name (thread-unique values; some slots left initialised at thread exit; threads park at a barrier "
+          "RPC calls over a private loopback, and ThreadLocal construct/Initialize/Get/write/Clear on 6 (T, Slot) types shared by name (thread-unique values; some slots left initialised at thread exit; all nine slot-tag forms - default, ThreadLocalSlot<void,1>, ThreadLocalIndexSlot<0/1>, ThreadLocalSlot<Tag,0/1>, ThreadLocalTypeSlot<Tag> - on one value type must be nine private values; threads park at a barrier "
           "while the addresses of all live (thread, slot) pairs are audited). Random yields / sub-20us sleeps between library calls only. Monitors: ThreadSanitizer (reports de-duplicated from its log), per-thread result "
           "digest == digest of the same work run one thread at a time, ThreadLocal assertions (first initialisation wins, fresh thread starts empty, no cross-thread / cross-slot value, Clear clears). distinct = hash(interleaving "
           "signature of operation-boundary tickets, round); the number of distinct signatures observed is reported."),
